@@ -18,6 +18,20 @@ macro_rules
 /-- `via t`: close the goal with `t`, elaborated without the goal as expected type -/
 macro "via " t:term : tactic => `(tactic| (have f := $t; exact f))
 
+/-- `queueMaxIf` either does nothing or is `queue_max_stream_id` with its result dropped -/
+theorem queueMaxIf_cases {s s' : State} {c : Bool} (h : s.queueMaxIf c = some s') :
+    s' = s ∨ ∃ b, s.queueMaxStreamId = some (s', b) := by
+  unfold State.queueMaxIf at h
+  split at h
+  · split at h
+    · contradiction
+    · next s'' b hq =>
+      simp only [Option.some.injEq] at h
+      subst h
+      exact Or.inr ⟨b, hq⟩
+  · simp only [Option.some.injEq] at h
+    exact Or.inl h.symm
+
 theorem natMax_eq (a b : Nat) : Nat.max a b = max a b := rfl
 theorem natMin_eq (a b : Nat) : Nat.min a b = min a b := rfl
 
